@@ -61,9 +61,9 @@ def build(variant="asan", repo=None, extra_lib_cflags="", tag=""):
         o = os.path.join(out, os.path.basename(s)[:-2] + "." + h + ".o")
         objs.append(o)
         if not os.path.exists(o):
-            for old in glob.glob(os.path.join(out, os.path.basename(s)[:-2] + ".*.o")):
-                os.unlink(old)
-            jobs.append("%s %s %s -w -c %s -o %s" % (cc, libcf, cfl, s, o))
+            # content-addressed objects, written under a temporary name and renamed: builds of different trees (seed
+            # evaluation on scratch copies, VERIF_REPO) may run at the same time without handing each other's code around
+            jobs.append("%s %s %s -w -c %s -o %s.tmp%d && mv %s.tmp%d %s" % (cc, libcf, cfl, s, o, os.getpid(), o, os.getpid(), o))
     # harness
     hsrc = sorted(glob.glob(VERIF + "/harness/*.c"))
     gen = os.path.join(out, "ll_gen.c")
@@ -81,9 +81,7 @@ def build(variant="asan", repo=None, extra_lib_cflags="", tag=""):
         o = os.path.join(out, "h_" + os.path.basename(s)[:-2] + "." + h + ".o")
         hobjs.append(o)
         if not os.path.exists(o):
-            for old in glob.glob(os.path.join(out, "h_" + os.path.basename(s)[:-2] + ".*.o")):
-                os.unlink(old)
-            jobs.append("%s %s %s -Wall -Wno-unused-function -I%s/include -I%s/harness -c %s -o %s" % (cc, hcf, cfl, repo, VERIF, s, o))
+            jobs.append("%s %s %s -Wall -Wno-unused-function -I%s/include -I%s/harness -c %s -o %s.tmp%d && mv %s.tmp%d %s" % (cc, hcf, cfl, repo, VERIF, s, o, os.getpid(), o, os.getpid(), o))
     def run(j):
         r = sh(j)
         return (j, r.returncode, r.stderr)
@@ -91,15 +89,28 @@ def build(variant="asan", repo=None, extra_lib_cflags="", tag=""):
         for j, rc, err in ex.map(run, jobs):
             if rc != 0:
                 raise BuildError("compile failed: %s\n%s" % (j, err[-3000:]))
-    exe = os.path.join(out, "vdrv")
-    newest = max(os.path.getmtime(o) for o in objs + hobjs)
-    if not os.path.exists(exe) or os.path.getmtime(exe) < newest or jobs:
+    # the executable is named after exactly the objects it is linked from
+    exe = os.path.join(out, "vdrv_" + hashlib.sha256((" ".join(hobjs + objs) + ldf + cc).encode()).hexdigest()[:16])
+    if not os.path.exists(exe):
         wraps = " ".join("-Wl,--wrap=" + w for w in WRAPS)
-        cmd = "%s %s -rdynamic %s %s %s -o %s %s -lyaml -lpthread -ldl" % (cc, ldf, wraps, " ".join(hobjs), " ".join(objs), exe, libs)
+        cmd = "%s %s -rdynamic %s %s %s -o %s.tmp%d %s -lyaml -lpthread -ldl && mv %s.tmp%d %s" % (
+            cc, ldf, wraps, " ".join(hobjs), " ".join(objs), exe, os.getpid(), libs, exe, os.getpid(), exe)
         r = sh(cmd)
         if r.returncode != 0:
             raise BuildError("link failed: %s\n%s" % (cmd, r.stderr[-3000:]))
+    _prune(out, keep=set(objs + hobjs + [exe]))
     return exe
+
+def _prune(out, keep, max_files=600):
+    """objects / executables of trees that are no longer built: drop the oldest beyond max_files (never the current ones)"""
+    try:
+        fs = [f for f in glob.glob(os.path.join(out, "*.o")) + glob.glob(os.path.join(out, "vdrv_*")) if f not in keep and ".tmp" not in f]
+        if len(fs) + len(keep) <= max_files: return
+        fs.sort(key=os.path.getmtime)
+        for f in fs[:len(fs) + len(keep) - max_files]:
+            try: os.unlink(f)
+            except OSError: pass
+    except OSError: pass
 
 if __name__ == "__main__":
     v = sys.argv[1] if len(sys.argv) > 1 else "asan"
